@@ -766,7 +766,10 @@ def run_fault(layout, d, ser, fault, stats, uri=None, err_uri=None):
             # the same publication id
             sc.op(args, kwargs)
             if not sc.calls:
-                raise RuntimeError("harness: genuine EVENT not delivered")
+                # (a property violation of its own - the clean jobs report it in detail; never a
+                # machinery error)
+                return sc, [], [("recovery", "the genuine encrypted EVENT delivered before the altered one did not "
+                                 "reach the handler")], 1
             extra["publication"] = sc.captured["last"].publication
             sc.calls[:] = []
             stats["altered_event_repeats_publication_id"] += 1
